@@ -10,6 +10,9 @@ CHECKS = {
  "C10": dict(technique="TLC model checking of Weave!MergePreserves + TLC trace validation of every recorded merge",
              text="MC_Weave proves projection stability for all valid paths on small trees; WeaveTrace evaluates, after every recorded merge of real executions, that both child groups projected out of the logged gap vectors equal their snapshots.",
              note="step-wise validation bounded by trace size (full arrays logged); larger runs only end-state", ref="DESIGN 5.C10"),
+ "C09": dict(technique="TLC lemmas over Params.tla + TLC trace validation of the complete aln_param_init table, kalign_run's parameters in force and traced CLI runs",
+             text="Params.tla states the documented table and the override rule; TLC checks its lemmas (explicit default = default, each penalty alone, reject iff mismatch). ParamsTrace validates every entry of the finite table biotype x type x override values returned by the real aln_param_init (including the full matrix), the parameters the kernels actually read in kalign_run, the type constant and penalties that each documented --type word / --gpo/--gpe/--tgpe reaches kalign_run with (CLI traced through KALIGN_VERIF_TRACE), and explicit-default = default outputs.",
+             note="table enumeration is complete for the listed override values (thorough); matrices transcribed once from the source as the documented reference; float penalties compared in 0.1 units", ref="DESIGN 5.C09"),
 }
 NOT_YET = {}
 ALL = ["C%02d" % i for i in range(1, 18)]
